@@ -104,7 +104,7 @@ func (z *zone) find(q name) *node {
 }
 
 func (z *zone) isENT(q name) bool {
-	if z.find(q) != nil {
+	if !q.under(z.apex) || z.find(q) != nil {
 		return false
 	}
 	for _, nd := range z.auth() {
